@@ -16,6 +16,7 @@ import (
 	"pgregory.net/rapid"
 
 	"github.com/cosi-project/runtime/pkg/resource"
+	"github.com/cosi-project/runtime/pkg/resource/kvutils"
 	"github.com/cosi-project/runtime/pkg/state"
 	"github.com/cosi-project/runtime/pkg/state/protobuf/server"
 
@@ -64,7 +65,7 @@ var (
 	rids   = []string{"a", "b", "c", "d", "e"}
 	values = []string{"", "x", "y", "abc", "0", "5", "10", "-3", "007", "5k", "1Ki", "1ki", "1k", "1K", "1000", "1023", "1024", "1025", "2 M", "2Mi", "2097152", "2000000", " 3g ", "3Gi", "1KI",
 		"1P", "1Pi", "1T", "1 Ti", "5kilo", "1e3", "k", "-", "9223372036854775807", "9999999999G"}
-	idRes  = []string{"", "", "^[ab]$", "c", "^$", "[d-e]", "^a"}
+	idRes = []string{"", "", "^[ab]$", "c", "^$", "[d-e]", "^a"}
 )
 
 func genTerm(t *rapid.T) Term {
@@ -125,7 +126,7 @@ func Gen(t *rapid.T) Plan {
 
 	p.History = rapid.SliceOfN(rapid.Custom(func(t *rapid.T) LOp {
 		return LOp{
-			K:   rapid.SampledFrom([]string{"set", "set", "set", "set", "del", "del", "create", "destroy"}).Draw(t, "hk"),
+			K:   rapid.SampledFrom([]string{"set", "set", "set", "setdo", "setdo", "del", "del", "create", "destroy"}).Draw(t, "hk"),
 			ID:  rapid.IntRange(0, 4).Draw(t, "hid"),
 			Key: rapid.IntRange(0, 2).Draw(t, "hkey"),
 			Val: rapid.SampledFrom(values).Draw(t, "hval"),
@@ -675,9 +676,14 @@ func runBubble(p Plan) (v hk.Verdict) {
 			if st.Destroy(ctx, ptr) == nil {
 				delete(labelsNow, id)
 			}
-		case "set":
+		case "set", "setdo":
 			if _, err := st.UpdateWithConflicts(ctx, ptr, func(r resource.Resource) error {
-				r.Metadata().Labels().Set(keys[op.Key], op.Val)
+				if op.K == "setdo" {
+					// the batch-edit form of the public labels API
+					r.Metadata().Labels().Do(func(tmp kvutils.TempKV) { tmp.Set(keys[op.Key], op.Val) })
+				} else {
+					r.Metadata().Labels().Set(keys[op.Key], op.Val)
+				}
 
 				return nil
 			}); err == nil {
